@@ -296,8 +296,10 @@ class Workbook:
                 out = self._run(mm, {'ign': list(ignore_sheets)}, 'c = ModelCompiler()\nreturn c.read_and_parse_archive("witness.xlsx", ignore_sheets=ign)')
         else:
             out = self._run(mm, {'d': dict(cells)}, 'c = ModelCompiler()\nreturn c.read_and_parse_dict(d)')
-        if out.end == 'raise':
-            # a well-formed workbook that cannot be compiled: the library refuses what the property says it computes
+        if out.end == 'raise' and out.explicit:
+            # a well-formed workbook that the library REFUSES to compile (a raise statement of the package): it refuses what the
+            # property says it computes. (An exception the interpreter inferred - AttributeError on a value it could not follow -
+            # stays an analysis error: it may be the interpreter's doing.)
             shown = dict(cells) if cells is not None else {k: v for k, v in (sheets or {}).items()}
             raise WorkbookFailed('model', 'ModelCompiler.read_and_parse_dict' if sheets is None else 'ModelCompiler.read_and_parse_archive',
                                  f'compiling the well-formed witness workbook {_short(shown)} ends in the Python exception {out.value!r}')
